@@ -8,6 +8,7 @@ import (
 
 	"github.com/istio-ecosystem/authservice/internal/oidc"
 	"github.com/istio-ecosystem/authservice/zzverif/ev"
+	"github.com/istio-ecosystem/authservice/zzverif/schedx"
 	"github.com/istio-ecosystem/authservice/zzverif/seqx"
 	"github.com/istio-ecosystem/authservice/zzverif/world"
 )
@@ -214,12 +215,77 @@ func c11Run(run *ev.Run) {
 		}
 		run.Extra["levels_"+store] = st.LevelSizes
 	}
+	for _, st := range []string{"memory", "redis"} {
+		b := 2
+		if run.Tier == "thorough" {
+			b = 3
+		}
+		cs := schedx.Explore(run, "C11", c11ConcScenario(st, b))
+		total.Histories += cs.Schedules
+		total.Transitions += cs.Points
+		run.Class(fmt.Sprintf("overlapping-refreshes|store=%s|outcomes=%d", st, len(cs.Distinct)))
+		if !cs.Complete {
+			run.Cap("scenario not completed: overlapping refreshes " + st)
+		}
+	}
 	run.States, run.Transitions, run.Traces, run.Evals = total.States, total.Transitions, total.Histories, total.Transitions
 	run.Extra["replayed_events"] = total.Replayed
 	run.Extra["depth"] = depth
 }
 
+// c11ConcScenario: two checks on ONE expired session overlap; the provider rotates the refresh token at the first
+// refresh it accepts and omits the member afterwards. Whatever the interleaving, a session that still holds tokens at
+// the end holds the provider's CURRENT refresh token (omitted members are kept from the session as it is, not as one
+// of the checks once read it), and the next refresh after the tokens expire again is accepted.
+func c11ConcScenario(store string, bound int) schedx.Scenario {
+	return schedx.Scenario{Name: "2 checks on one expired session, rotate once then omit, store=" + store, Bound: bound, PanicIsViolation: true,
+		Setup: func() *schedx.Instance {
+			w := world.New(world.Spec{Store: store, Forward: true})
+			sid := c15Prepare(w, "expired")
+			w.Envs = []*world.Env{{}, {}}
+			ans := world.Answer{Name: "rotate-once", RotateOnce: true}
+			var res [2]world.Result
+			bodies := make([]func(), 2)
+			for i := range bodies {
+				i := i
+				bodies[i] = func() { res[i] = w.Do(world.Req{Path: "/", Cookie: sid}, world.Plan{Answer: &ans}) }
+			}
+			return &schedx.Instance{Threads: bodies, Close: w.Close, Finish: func(x *schedx.Exec) (string, []schedx.Violation) {
+				var viols []schedx.Violation
+				obs := fmt.Sprintf("t0(ok=%v) t1(ok=%v)", res[0].OK, res[1].OK)
+				w.Envs = nil
+				w.Env = &world.Env{}
+				t, err := w.Raw.GetTokenResponse(context.Background(), sid)
+				if err == nil && t != nil && len(w.IdP.Logins) > 0 {
+					cur := w.IdP.Logins[0].CurrentRT
+					obs += fmt.Sprintf(" stored-rt-current=%v", t.RefreshToken == cur)
+					if t.RefreshToken != cur {
+						viols = append(viols, schedx.Violation{Signature: "stale-refresh-token-stored after-overlapping-refreshes",
+							Message: fmt.Sprintf("after both checks the session holds refresh token %q, the provider's current one is %q: the next refresh will be refused", t.RefreshToken, cur)})
+					}
+				} else {
+					obs += " session-gone"
+				}
+				return obs, viols
+			}}
+		}}
+}
+
 func c11ReplayFn(path string) int {
+	var sr schedx.Replay
+	if _, err := loadReplay(path, &sr); err == nil && sr.Scenario != "" {
+		for _, st := range []string{"memory", "redis"} {
+			if sc := c11ConcScenario(st, 2); sc.Name == sr.Scenario {
+				obs, v, err := schedx.ReplayOnce(sc, sr.Choices)
+				if err != nil {
+					fmt.Println(err)
+					return 2
+				}
+				return replayVerdict("C11", len(v) > 0, obs)
+			}
+		}
+		return 2
+	}
 	var rp c01Replay
 	if _, err := loadReplay(path, &rp); err != nil {
 		fmt.Println(err)
